@@ -48,6 +48,11 @@ class CtxVar:
         return c
 
 
+def _track(I, var):
+    I.ctxvars.append(var)
+    return var
+
+
 class CtxToken:
     def __init__(self, var, old):
         self.var = var
@@ -153,7 +158,7 @@ def make_modules(I):
 
     # contextvars
     mods["contextvars"] = ModuleNS("contextvars", {
-        "ContextVar": Builtin("ContextVar", lambda name, **k: CtxVar(name, k.get("default"), "default" in k)),
+        "ContextVar": Builtin("ContextVar", lambda name, **k: _track(I, CtxVar(name, k.get("default"), "default" in k))),
     })
 
     # os
